@@ -321,8 +321,10 @@ func (p *prog) experiment(op *opSpec) {
 	pre := p.A.ReadState()
 	fpg, netSize := nz(pre.State.FeePerGas()), pre.ValidatorsCache.NetworkSize()
 	var prefix []*prefixItem
-	drain := !op.pinNonce && fpg.Sign() > 0 && !p.chance("noDrainShape", 96)
-	if drain {
+	drain := op.presetPrefix == nil && !op.pinNonce && fpg.Sign() > 0 && !p.chance("noDrainShape", 96)
+	if op.presetPrefix != nil {
+		prefix = op.presetPrefix
+	} else if drain {
 		op.nonceOffset = 1
 	} else {
 		prefix = p.drawPrefix(op)
@@ -351,6 +353,8 @@ func (p *prog) experiment(op *opSpec) {
 	shape := "single"
 	if drain {
 		shape = "drain"
+	} else if op.shape != "" {
+		shape = op.shape
 	} else if len(prefix) > 0 {
 		shape = "prefixed"
 	}
@@ -467,6 +471,21 @@ func (p *prog) experiment(op *opSpec) {
 		}
 		desc += fmt.Sprintf("\n  preceded in the block by #%d: %s %s -> %s amount=%v nonce=%d (%s) %s", i, sim.TxTypeNames[x.Type], p.w.Name(from), to, x.Amount, x.AccountNonce, shp, out)
 		evid.Count("block.prefix-tx." + shp)
+	}
+	// new distinct WASM codes this block stores (successful deployments of a code no earlier deployment stored)
+	newCodes := 0
+	noteCode := func(o *opSpec, r *types.TxReceipt) {
+		if o != nil && o.codeHash != nil && r != nil && r.Success && !p.knownCodes[*o.codeHash] {
+			p.knownCodes[*o.codeHash] = true
+			newCodes++
+		}
+	}
+	for _, it := range accepted {
+		noteCode(it.op, without.Chain.GetReceipt(it.tx.Hash()))
+	}
+	noteCode(op, rec)
+	if newCodes > 0 {
+		evid.Count(fmt.Sprintf("block.new-distinct-wasm-codes=%d", newCodes))
 	}
 	evid.Count(fmt.Sprintf("block.txs=%d", n1))
 	if drain {
@@ -613,7 +632,7 @@ func runProgram(t *rapid.T, profile string) {
 	if !A.CanPropose() {
 		t.Fatalf("HARNESS: god cannot propose")
 	}
-	p := &prog{t: t, w: w, A: A, profile: profile, senders: w.Actors[1:params.NActors]}
+	p := &prog{t: t, w: w, A: A, profile: profile, senders: w.Actors[1:params.NActors], knownCodes: map[common.Hash]bool{}}
 	focuses := []string{"mix", "voting", "wallets", "voting", "voting"}
 	if profile == "v12" {
 		focuses = append(focuses, "wasm", "wasm", "mix")
@@ -638,6 +657,9 @@ func runProgram(t *rapid.T, profile string) {
 	for i := 0; i < steps; i++ {
 		w.Advance(time.Duration(rapid.IntRange(10, 40).Draw(t, "dt")) * time.Second)
 		op := p.next()
+		if profile == "v12" && p.A.ReadState().State.FeePerGas().Sign() > 0 && !p.chance("noMultiDeploy", 95) {
+			op = p.multiDeploy()
+		}
 		if os.Getenv("C15_TRACE") != "" && op.special != "" {
 			fmt.Fprintf(os.Stderr, "TRACE h=%d special %s n=%d dur=%v\n", p.A.Head().Height(), op.special, op.n, op.dur)
 		}
